@@ -189,6 +189,11 @@ Proof.
     unfold date_filter. destruct args as [|a [|b args']]; try exact I.
     destruct v; try exact I. destruct (to_date_time O s); try exact I.
     destruct (to_kstr O a); try exact I. destruct (Strftime.strftime d (c :: s0)); exact I.
+  - (* the jekyll / shopify filters: list surgery and text concatenation *)
+    unfold extra_filter. destruct f; destruct args as [|a [|b [|c args']]]; try exact I; destruct v; try exact I.
+    + destruct l; exact I.
+    + destruct l; exact I.
+    + destruct (to_integer s); exact I.
 Qed.
 Lemma apply_filters_safe fs s : forall v, rsafe (apply_filters O v fs s).
 Proof.
